@@ -128,6 +128,13 @@ pub fn drive(pf_vectors: Option<&str>, near_vectors: Option<&str>, corpus: &str,
       cases.push(Case { id: format!("near{i}"), lang: js, ext: "js".into(), pattern: render_list(&gs), src, selector: None, extra: json!({"mode": "near"}) });
     }
   }
+  // files without any token: only white space, only a comment, only a line break - their root node is still a node
+  // that a pattern can match (`$$$` matches the empty statement list)
+  for (k, src) in ["\n", "  \n\n\t\n", " ", "// only a comment\n", "\u{feff}\n"].iter().enumerate() {
+    for (j, pattern) in ["$$$", "$$$A"].iter().enumerate() {
+      cases.push(Case { id: format!("blank{k}-{j}"), lang: js, ext: "js".into(), pattern: pattern.to_string(), src: src.to_string(), selector: None, extra: json!({"mode": "near"}) });
+    }
+  }
   let per_file = if thorough { 6 } else { 1 };
   for (l, path, text) in util::corpus(corpus) {
     if l == SupportLang::Html {
